@@ -462,6 +462,14 @@ func init() {
 							return
 						}
 					}
+					// white space around the dot of a call, on literal and variable receivers
+					for _, form := range []string{"{{ %s. fn5() }}", "{{ %s .fn5() }}", "{{ %s . fn5() }}", "{{ %s.\n\tfn5() }}", "{{ (%s). fn5() }}", "{{ v = %s }}{{ v. fn5() }}", "{{ v = %s }}{{ v\n.fn5() }}"} {
+						src := fmt.Sprintf(form, recvSrc)
+						if g := evalString(c, src, nil); !g.Panicked && (g.Err != nil || g.Out != want(5)) {
+							c.Violation("registry:spaced-call", fmt.Sprintf("%q gave %s, want %q (the function registered as fn5)", src, g.Describe(), want(5)), map[string]any{"source": src})
+							return
+						}
+					}
 					// names that are keywords in another letter case are names like any other
 					for _, name := range []string{"In", "Nil", "True", "False", "IN", "NIL", "tRUE", "fALSE", "iN", "nIl", "Inn", "trueish", "nilable", "If", "End", "Each", "Loop",
 						// names that begin with or consist of underscores, and words that other languages reserve
